@@ -181,6 +181,10 @@ class Gen(object):
         if a == 'query':
             act = {'a': 'query', 'r': self.fresh(), 'in_cb': self.nested_choice('in_cb'),
                    'after_check': self.nested_choice('after_check')}
+            if rng.random() < p.get('fastreply', 0.15):
+                # the node's answer is processed by the event thread as soon as the message is pushed,
+                # before the sending thread has executed the rest of send_msg
+                act['at_push'] = [{'a': 'respond_tok', 'r': act['r']}]
         elif a == 'borrow':
             act = {'a': 'borrow', 'r': self.fresh()}
         elif a == 'send':
